@@ -23,6 +23,9 @@ DIRECTION = swapper([
     ("move_on_next", "move_on_prev"),
     ("move_on_first", "move_on_last"),
     ("next_block_from_index", "prev_block_from_index"),
+    ("First", "Last"),
+    ("Next", "Prev"),
+    ("Forward", "Backward"),
 ])
 
 RANGE = swapper([
